@@ -1,10 +1,93 @@
-import AcraModel.Basic.Bytes
-/-! Driver ops for C08. -/
+import AcraModel.Keystore.Calls
+import Driver.C06
+/-! Driver ops for C08: a history, one write operation under a fault, reopen, follow-ups.
+
+`C08.v1 <cache> <mode> <k> H <op>… O <op> F <op>…` (and `C08.v2m`/`C08.v2d` without `<cache>`)
+→ `<calls>;<outcome>;<follow-up observations>` (see harness/internal/c08/c08.go). -/
 namespace Driver.C08
-open AcraModel
+open AcraModel AcraModel.Keystore Driver.C06
+
+def fileTokOf (f : FileId) : String := fileTok (f.slot, f.pub)
+
+def renderCall (pre : FS) : Call → String
+  | .mkdirAll _ => "MkdirAll:dir"
+  | .tempFile f => "TempFile:" ++ fileTokOf f
+  | .writeFile _ f _ => "WriteFile:tmp(" ++ fileTokOf f ++ ")"
+  | .stat f => "Stat:" ++ fileTokOf f
+  | .mkdirOld f => "MkdirAll:" ++ fileTokOf f ++ ".old"
+  | .link f => "Link:" ++ fileTokOf f
+  | .copy f => "Copy:" ++ fileTokOf f
+  | .rename _ f => "Rename:tmp(" ++ fileTokOf f ++ ")>" ++ fileTokOf f
+  | .remove f => "Remove:" ++ fileTokOf f
+  | .readDirOld f => "ReadDir:" ++ fileTokOf f ++ ".old"
+  | .readDirHist f => "ReadDir:" ++ fileTokOf f ++ ".old"
+  | .removeOld f t => "Remove:" ++ fileTokOf f ++ ".old/@" ++ toString (((pre.old f).map (·.1)).idxOf t)
+
+def renderBCall : BCall → String
+  | .lock => "Lock" | .unlock => "Unlock" | .rlock => "RLock" | .runlock => "RUnlock"
+  | .get s => "Get:" ++ slotTok s
+  | .putNew s => "Put:" ++ slotTok s ++ ".new"
+  | .renameNew s => "Rename:" ++ slotTok s ++ ".new"
+  | .listAll => "ListAll"
+
+def renderOutcome : Outcome → String
+  | .ok => "ok" | .err => "err" | .crash => "crash"
+
+def parseMode : String → Option FaultMode
+  | "none" => some .none | "err" => some .err | "cb" => some .cb | "ca" => some .ca | "torn" => some .torn
+  | _ => none
+
+structure Scenario where
+  hist : List Op
+  op : Op
+  follow : List Op
+
+def parseSections (toks : List String) : Option Scenario := do
+  let (h, rest) := (toks.drop 1).span (· ≠ "O")
+  guard (toks.head? = some "H")
+  match rest with
+  | "O" :: o :: "F" :: f => do
+    let hist ← h.mapM parseOp
+    let op ← parseOp o
+    let follow ← f.mapM parseOp
+    pure ⟨hist, op, follow⟩
+  | _ => none
+
+def opSlot : Op → Option Slot
+  | .gen s | .cur s | .pub s | .all s | .dcur s | .drot s _ => some s
+  | _ => none
+
+/-- side effect of the harness's snapshot reads on a v2 store: reading a poison kind opens its ring
+read-write, which creates a missing ring -/
+def snapshotV2 (st : V2) (slots : List Slot) : V2 :=
+  slots.foldl (fun st s => match s.kind with
+    | .pp | .ps => match st.openRW s with | some (st', _) => st' | none => st
+    | _ => st) st
 
 def handle (op : String) (args : List String) : Option String :=
   match op, args with
+  | "v1", c :: m :: k :: rest => do
+      let c ← parseInt c
+      let mode ← parseMode m
+      let k ← k.toNat?
+      let sc ← parseSections rest
+      let (st, _) := (V1.init c).run sc.hist
+      let (st1, trace, out) := st.stepF ⟨mode, k⟩ sc.op
+      let (_, obs) := st1.clear.run sc.follow
+      pure (joinOr "," (trace.map (renderCall st.fs)) ++ ";" ++ renderOutcome out ++ ";" ++
+        (if obs.isEmpty then "-" else "|".intercalate (obs.map (renderObs Generated.KeyNames.v1FirstListedIndex))))
+  | "v2m", m :: k :: rest | "v2d", m :: k :: rest => do
+      let mode ← parseMode m
+      let k ← k.toNat?
+      let sc ← parseSections rest
+      let slots := ((sc.hist ++ [sc.op] ++ sc.follow).filterMap opSlot).eraseDups
+      let (st, _) := V2.init.run sc.hist
+      let st := snapshotV2 st slots
+      let (st1, trace, out) := st.stepF ⟨mode, k⟩ sc.op
+      let st1 := snapshotV2 st1 slots
+      let (_, obs) := st1.run sc.follow
+      pure (joinOr "," (trace.map renderBCall) ++ ";" ++ renderOutcome out ++ ";" ++
+        (if obs.isEmpty then "-" else "|".intercalate (obs.map (renderObs Generated.KeyNames.v2FirstListedIndex))))
   | _, _ => none
 
 end Driver.C08
